@@ -27,6 +27,8 @@ DECIDED = [
     "REG-1 / RANK-1 (shared with C08) every documented error rule is registered for its object kinds and constructs its issues with rank error",
     "REG-2 the handler registry only grows: no method replaces or drops the handlers registered for an object kind",
     "ACC-1 the duplicate-id error rule threads one id map through the whole traversal (shared with C08)",
+    'DUP-1 / DUP-2 (shared with C08) the duplicate sibling name rule is a seen-set scan keyed by the Property name alone',
+    'ORDER-1 takes a parameter for text only under a dominating isinstance(<parameter>, str) test',
 ]
 NOT_DECIDED = ["I/O faults of write() itself (disk full, permission)", "which documents the validation rules flag (C08)"]
 
